@@ -348,9 +348,14 @@ inductive ZLoc where
   | den (i : Nat)
   deriving DecidableEq, Repr
 
-abbrev Heap := ZLoc → Int
+/-- contents of every mpz_t object.  (A structure rather than a bare function type so that the compiled
+    driver evaluates a stored value once, when it is stored, and not again at every read.) -/
+structure Heap where
+  get : ZLoc → Int
 
-def Heap.set (h : Heap) (p : ZLoc) (x : Int) : Heap := fun l => if l = p then x else h l
+instance : CoeFun Heap (fun _ => ZLoc → Int) := ⟨Heap.get⟩
+
+def Heap.set (h : Heap) (p : ZLoc) (x : Int) : Heap := ⟨fun l => if l = p then x else h l⟩
 
 /-- value of mpq object `i` -/
 def qval (h : Heap) (i : Nat) : Rat := Rat.divInt (h (.num i)) (h (.den i))
@@ -754,5 +759,253 @@ def execCmpZ (cst : Bool) (K : Nat) (o : Cmp) (a b : Opnd) (h : Heap) : Option I
 /-- `sgn(e)` (mpirxx.h:2988): `mpz_sgn` of the bound object -/
 def execSgnZ (cst : Bool) (K : Nat) (a : E) (h : Heap) : Option Int :=
   (bindZ cst K a h).map fun (la, h1) => zsgn (h1 la)
+
+/-! ### mpq: C functions and function objects -/
+
+/-- canonical form: positive denominator, numerator and denominator coprime -/
+def Canon (h : Heap) (i : Nat) : Prop :=
+  0 < h (.den i) ∧ Nat.Coprime (h (.num i)).natAbs (h (.den i)).natAbs
+
+/- the mpq C functions: operands are read (canonical), the canonical result is stored (C12) -/
+def mpq_op1 (f : Rat → Rat) (p r : Nat) (h : Heap) : Heap := h.setQ p (f (qval h r))
+def mpq_op2 (f : Rat → Rat → Rat) (p a b : Nat) (h : Heap) : Heap := h.setQ p (f (qval h a) (qval h b))
+/-- an mpq function with a stack temporary (`__GMPXX_TMPQ_UI/SI`, `mpq_t temp; mpq_set_d`) of value `t` as second operand -/
+def mpq_opT (f : Rat → Rat → Rat) (p r : Nat) (t : Rat) (h : Heap) : Heap := h.setQ p (f (qval h r) t)
+def mpq_set (p r : Nat) (h : Heap) : Heap := (h.set (.num p) (h (.num r))).set (.den p) (h (.den r))
+def mpq_neg (p r : Nat) (h : Heap) : Heap := (h.set (.num p) (-(h (.num r)))).set (.den p) (h (.den r))
+def mpq_abs (p r : Nat) (h : Heap) : Heap := (h.set (.num p) (zabs (h (.num r)))).set (.den p) (h (.den r))
+def mpq_div (p a b : Nat) (h : Heap) : Option Heap := if qval h b = 0 then none else some (mpq_op2 (· / ·) p a b h)
+def mpq_set_z (p : Nat) (z : ZLoc) (h : Heap) : Heap := (h.set (.num p) (h z)).set (.den p) 1
+def mpq_set_ui (p : Nat) (n d : Nat) (h : Heap) : Heap := (h.set (.num p) (Int.ofNat n)).set (.den p) (Int.ofNat d)
+def mpz_set_q (z : ZLoc) (q : Nat) (h : Heap) : Heap := h.set z (qtrunc (qval h q))
+def mpz_addmul_ui (x y : ZLoc) (l : Nat) (h : Heap) : Heap := h.set x (h x + h y * Int.ofNat l)
+def mpz_submul_ui (x y : ZLoc) (l : Nat) (h : Heap) : Heap := h.set x (h x - h y * Int.ofNat l)
+def mpz_addmul (x y z : ZLoc) (h : Heap) : Heap := h.set x (h x + h y * h z)
+def mpz_submul (x y z : ZLoc) (h : Heap) : Heap := h.set x (h x - h y * h z)
+
+/-- `if (q != r) mpq_set(q, r)` -/
+def copyQ (p r : Nat) : M := fun h => if p ≠ r then some (mpq_set p r h) else some h
+
+namespace Lshift
+def q (cst : Bool) (p r : Nat) (l : Nat) : M := fun h =>
+  if cst && l == 0 then copyQ p r h else some (mpq_op1 (fun x => qshl x l) p r h)      -- mpq_mul_2exp
+end Lshift
+namespace Rshift
+def q (cst : Bool) (p r : Nat) (l : Nat) : M := fun h =>
+  if cst && l == 0 then copyQ p r h else some (mpq_op1 (fun x => qshr x l) p r h)      -- mpq_div_2exp
+end Rshift
+
+namespace Plus
+def qq (p r s : Nat) : M := fun h => some (mpq_op2 (· + ·) p r s h)
+/-- mpirxx.h:230 -/
+def q_ui (cst : Bool) (p r : Nat) (l : Nat) : M := fun h =>
+  if cst && l == 0 then copyQ p r h
+  else if p = r then some (mpz_addmul_ui (.num p) (.den p) l h)
+  else some (mpz_set (.den p) (.den r) (mpz_add (.num p) (.num p) (.num r) (mpz_mul_ui (.num p) (.den r) l h)))
+/-- mpirxx.h:265 -/
+def q_z (p r : Nat) (z : ZLoc) : M := fun h =>
+  if p = r then some (mpz_addmul (.num p) (.den p) z h)
+  else some (mpz_set (.den p) (.den r) (mpz_add (.num p) (.num p) (.num r) (mpz_mul (.num p) (.den r) z h)))
+def q_d (p r : Nat) (d : Nat) : M := fun h => (dval d).map fun t => mpq_opT (· + ·) p r t h
+end Plus
+
+namespace Minus
+def qq (p r s : Nat) : M := fun h => some (mpq_op2 (· - ·) p r s h)
+/-- mpirxx.h:355 -/
+def q_ui (cst : Bool) (p r : Nat) (l : Nat) : M := fun h =>
+  if cst && l == 0 then copyQ p r h
+  else if p = r then some (mpz_submul_ui (.num p) (.den p) l h)
+  else some (mpz_set (.den p) (.den r) (mpz_sub (.num p) (.num r) (.num p) (mpz_mul_ui (.num p) (.den r) l h)))
+def ui_q (cst : Bool) (p : Nat) (l : Nat) (r : Nat) : M := fun h => (q_ui cst p r l h).map (mpq_neg p p)
+/-- mpirxx.h:401 -/
+def q_z (p r : Nat) (z : ZLoc) : M := fun h =>
+  if p = r then some (mpz_submul (.num p) (.den p) z h)
+  else some (mpz_set (.den p) (.den r) (mpz_sub (.num p) (.num r) (.num p) (mpz_mul (.num p) (.den r) z h)))
+def z_q (p : Nat) (z : ZLoc) (r : Nat) : M := fun h => (q_z p r z h).map (mpq_neg p p)
+def q_d (p r : Nat) (d : Nat) : M := fun h => (dval d).map fun t => mpq_opT (· - ·) p r t h
+def d_q (p : Nat) (d : Nat) (r : Nat) : M := fun h => (dval d).map fun t => mpq_opT (fun x y => y - x) p r t h
+def q_si (cst : Bool) (p r : Nat) (l : Int) : M := fun h =>
+  if l ≥ 0 then q_ui cst p r (toUi l) h else Plus.q_ui cst p r (negUi l) h
+def si_q (cst : Bool) (p : Nat) (l : Int) (r : Nat) : M := fun h => (q_si cst p r l h).map (mpq_neg p p)
+end Minus
+
+namespace Plus
+/-- mpirxx.h:457 -/
+def q_si (cst : Bool) (p r : Nat) (l : Int) : M := fun h =>
+  if l ≥ 0 then q_ui cst p r (toUi l) h else Minus.q_ui cst p r (negUi l) h
+end Plus
+
+/-- `__GMPXX_TMPQ_SI`: numerator by `__mpz_set_si_safe`, denominator 1 -/
+def tmpqSi (l : Int) : Rat := ((tmpzSi l : Int) : Rat)
+
+namespace Multiplies
+def qq (p r s : Nat) : M := fun h => some (mpq_op2 (· * ·) p r s h)
+/-- mpirxx.h:564 -/
+def q_ui (cst : Bool) (p r : Nat) (l : Nat) : M := fun h =>
+  if cst && pow2Test l then
+    if l = 0 then some (mpq_set_ui p 0 1 h) else Lshift.q cst p r (ctz l) h
+  else some (mpq_opT (· * ·) p r ((Int.ofNat l : Int) : Rat) h)
+def q_si (cst : Bool) (p r : Nat) (l : Int) : M := fun h =>
+  if cst then
+    if l ≥ 0 then q_ui cst p r (toUi l) h else (q_ui cst p r (negUi l) h).map (mpq_neg p p)
+  else some (mpq_opT (· * ·) p r (tmpqSi l) h)
+def q_d (p r : Nat) (d : Nat) : M := fun h => (dval d).map fun t => mpq_opT (· * ·) p r t h
+end Multiplies
+
+namespace Divides
+def qq (p r s : Nat) : M := mpq_div p r s
+/-- `mpq_div(q, r, temp)` with a stack temporary divisor -/
+def divT (p r : Nat) (t : Rat) : M := fun h => if t = 0 then none else some (mpq_opT (· / ·) p r t h)
+/-- `mpq_div(q, temp, r)` -/
+def tDiv (p : Nat) (t : Rat) (r : Nat) : M := fun h => if qval h r = 0 then none else some (mpq_opT (fun x y => y / x) p r t h)
+/-- mpirxx.h:736 -/
+def q_ui (cst : Bool) (p r : Nat) (l : Nat) : M := fun h =>
+  if cst && pow2Test l && l != 0 then Rshift.q cst p r (ctz l) h
+  else divT p r ((Int.ofNat l : Int) : Rat) h
+def ui_q (p : Nat) (l : Nat) (r : Nat) : M := tDiv p ((Int.ofNat l : Int) : Rat) r
+def q_si (cst : Bool) (p r : Nat) (l : Int) : M := fun h =>
+  if cst then
+    if l ≥ 0 then q_ui cst p r (toUi l) h else (q_ui cst p r (negUi l) h).map (mpq_neg p p)
+  else divT p r (tmpqSi l) h
+def si_q (p : Nat) (l : Int) (r : Nat) : M := tDiv p (tmpqSi l) r
+def q_d (p r : Nat) (d : Nat) : M := fun h => (dval d).bind fun t => divT p r t h
+def d_q (p : Nat) (d : Nat) (r : Nat) : M := fun h => (dval d).bind fun t => tDiv p t r h
+end Divides
+
+/-- an operand handed to an mpq function object -/
+inductive QArg where
+  | q (i : Nat)          -- mpq object
+  | z (i : Nat)          -- mpz_class object `.v i` (only `+` and `-` have such overloads)
+  | bi (c : Bi)
+  deriving DecidableEq, Repr
+
+/-- overload resolution of `Op::eval(q, a, b)` for the mpq function objects -/
+def fnBinQ (cst : Bool) (o : Bin) (p : Nat) (a b : QArg) : M :=
+  match o, a, b with
+  | .add, .q r, .q s => Plus.qq p r s
+  | .add, .q r, .bi (.ui l) | .add, .bi (.ui l), .q r => Plus.q_ui cst p r l
+  | .add, .q r, .bi (.si l) | .add, .bi (.si l), .q r => Plus.q_si cst p r l
+  | .add, .q r, .bi (.d d) | .add, .bi (.d d), .q r => Plus.q_d p r d
+  | .add, .q r, .z z | .add, .z z, .q r => Plus.q_z p r (.v z)
+  | .sub, .q r, .q s => Minus.qq p r s
+  | .sub, .q r, .bi (.ui l) => Minus.q_ui cst p r l
+  | .sub, .bi (.ui l), .q r => Minus.ui_q cst p l r
+  | .sub, .q r, .bi (.si l) => Minus.q_si cst p r l
+  | .sub, .bi (.si l), .q r => Minus.si_q cst p l r
+  | .sub, .q r, .bi (.d d) => Minus.q_d p r d
+  | .sub, .bi (.d d), .q r => Minus.d_q p d r
+  | .sub, .q r, .z z => Minus.q_z p r (.v z)
+  | .sub, .z z, .q r => Minus.z_q p (.v z) r
+  | .mul, .q r, .q s => Multiplies.qq p r s
+  | .mul, .q r, .bi (.ui l) | .mul, .bi (.ui l), .q r => Multiplies.q_ui cst p r l
+  | .mul, .q r, .bi (.si l) | .mul, .bi (.si l), .q r => Multiplies.q_si cst p r l
+  | .mul, .q r, .bi (.d d) | .mul, .bi (.d d), .q r => Multiplies.q_d p r d
+  | .div, .q r, .q s => Divides.qq p r s
+  | .div, .q r, .bi (.ui l) => Divides.q_ui cst p r l
+  | .div, .bi (.ui l), .q r => Divides.ui_q p l r
+  | .div, .q r, .bi (.si l) => Divides.q_si cst p r l
+  | .div, .bi (.si l), .q r => Divides.si_q p l r
+  | .div, .q r, .bi (.d d) => Divides.q_d p r d
+  | .div, .bi (.d d), .q r => Divides.d_q p d r
+  | _, _, _ => fun _ => none        -- no such overload
+
+def fnUnQ (o : Un) (p r : Nat) : M := fun h =>
+  match o with
+  | .pos => some (mpq_set p r h)
+  | .neg => some (mpq_neg p r h)
+  | .abs => some (mpq_abs p r h)
+  | _ => none
+
+def fnShQ (cst : Bool) (o : Sh) (p r : Nat) (n : Nat) : M :=
+  match o with
+  | .shl => Lshift.q cst p r n
+  | .shr => Rshift.q cst p r n
+
+
+/-! ### the expression-template strategy for mpq destinations (mpirxx.h:2292–2313, 2382–2952)
+
+  `evalQ cst k p e` is `__gmp_set_expr(p, e)` for an mpq destination object `p` and a tree `e` of either
+  type: an mpz-typed tree is evaluated *into the numerator field* and the denominator set to 1
+  (mpirxx.h:2298); an mpq-typed tree runs `e.eval(p)` with the specialisation chosen by the operand
+  shapes, among them the mixed mpz/mpq special cases of `+` and `-` (`__GMPZQ_DEFINE_EXPR`,
+  mpirxx.h:2782).  `k` numbers the next unused temporary (`mpz_class` object `.v k`, `mpq_class` object `k`). -/
+
+def E.qleaf? : E → Option Nat
+  | .qv i => some i
+  | _ => none
+
+/-- `__gmp_set_expr(mpq_ptr q, const __gmp_expr<mpz_t, T> &)`: evaluate into the numerator, denominator := 1 -/
+def convZ (cst : Bool) (k p : Nat) (e : E) : M := fun h =>
+  (evalZ cst k (.num p) e h).map (mpz_set_ui (.den p) 1)
+
+def isAddSub : Bin → Bool
+  | .add | .sub => true
+  | _ => false
+
+def evalQ (cst : Bool) : (k p : Nat) → E → M
+  | _, p, .zv i => fun h => some (mpq_set_z p (.v i) h)                 -- mpirxx.h:2292
+  | _, p, .qv i => fun h => some (mpq_set p i h)                        -- mpirxx.h:2304
+  | k, p, .un o a =>
+    if a.ty = .z then convZ cst k p (.un o a)
+    else match a.qleaf? with
+      | some i => fnUnQ o p i
+      | none => fun h => (evalQ cst k p a h).bind (fnUnQ o p p)
+  | k, p, .sh o a n =>
+    if a.ty = .z then convZ cst k p (.sh o a n)
+    else match a.qleaf? with
+      | some i => fnShQ cst o p i n
+      | none => fun h => (evalQ cst k p a h).bind (fnShQ cst o p p n)
+  | k, p, .binL o c b =>
+    if b.ty = .z then convZ cst k p (.binL o c b)
+    else match b.qleaf? with
+      | some j => fnBinQ cst o p (.bi c) (.q j)
+      | none => fun h => (evalQ cst k p b h).bind (fnBinQ cst o p (.bi c) (.q p))
+  | k, p, .binR o a c =>
+    if a.ty = .z then convZ cst k p (.binR o a c)
+    else match a.qleaf? with
+      | some i => fnBinQ cst o p (.q i) (.bi c)
+      | none => fun h => (evalQ cst k p a h).bind (fnBinQ cst o p (.q p) (.bi c))
+  | k, p, .bin o a b =>
+    if a.ty = .z ∧ b.ty = .z then convZ cst k p (.bin o a b)
+    else if isAddSub o ∧ a.ty = .z then                                  -- mpz ± mpq, mpirxx.h:2785, 2821, 2865, 2909
+      match a.zleaf?, b.qleaf? with
+      | some i, some j => fnBinQ cst o p (.z i) (.q j)
+      | some i, none => fun h => (evalQ cst (k + 1) k b h).bind (fnBinQ cst o p (.z i) (.q k))
+      | none, some j => fun h => (evalZ cst (k + 1) (.v k) a h).bind (fnBinQ cst o p (.z k) (.q j))
+      | none, none => fun h =>
+          (evalZ cst (k + 1) (.v k) a h).bind fun h1 => (evalQ cst (k + 1) p b h1).bind (fnBinQ cst o p (.z k) (.q p))
+    else if isAddSub o ∧ b.ty = .z then                                  -- mpq ± mpz, mpirxx.h:2803, 2843, 2887, 2932
+      match a.qleaf?, b.zleaf? with
+      | some i, some j => fnBinQ cst o p (.q i) (.z j)
+      | some i, none => fun h => (evalZ cst (k + 1) (.v k) b h).bind (fnBinQ cst o p (.q i) (.z k))
+      | none, some j => fun h => (evalQ cst (k + 1) k a h).bind (fnBinQ cst o p (.q k) (.z j))
+      | none, none => fun h =>
+          (evalZ cst (k + 1) (.v k) b h).bind fun h1 => (evalQ cst (k + 1) p a h1).bind (fnBinQ cst o p (.q p) (.z k))
+    else
+      match a.qleaf?, b.qleaf? with
+      | some i, some j => fnBinQ cst o p (.q i) (.q j)                   -- mpirxx.h:2437
+      | some i, none => fun h =>                                         -- mpirxx.h:2503 / 2573
+          if p ≠ i then (evalQ cst k p b h).bind (fnBinQ cst o p (.q i) (.q p))
+          else (evalQ cst (k + 1) k b h).bind (fnBinQ cst o p (.q i) (.q k))
+      | none, some j => fun h =>                                         -- mpirxx.h:2538 / 2608
+          if p ≠ j then (evalQ cst k p a h).bind (fnBinQ cst o p (.q p) (.q j))
+          else (evalQ cst (k + 1) k a h).bind (fnBinQ cst o p (.q k) (.q j))
+      | none, none => fun h =>
+          if a.ty = .q then                                              -- mpirxx.h:2691 / 2747
+            (evalQ cst (k + 1) k b h).bind fun h1 => (evalQ cst (k + 1) p a h1).bind (fnBinQ cst o p (.q p) (.q k))
+          else                                                           -- mpirxx.h:2719
+            (evalQ cst (k + 1) k a h).bind fun h1 => (evalQ cst (k + 1) p b h1).bind (fnBinQ cst o p (.q k) (.q p))
+
+/-- `z_t = e` for an mpq-typed `e` (mpirxx.h:2279): `mpq_class const& temp(expr); mpz_set_q(z, temp)` -/
+def assignZfromQ (cst : Bool) (k : Nat) (t : Nat) (e : E) : M := fun h =>
+  match e.qleaf? with
+  | some i => some (mpz_set_q (.v t) i h)
+  | none => (evalQ cst (k + 1) k e h).map (mpz_set_q (.v t) k)
+
+/-- a whole assignment statement `target = e`; `K` = number of variables of each kind -/
+def execAssign (cst : Bool) (K : Nat) (t : Ty) (i : Nat) (e : E) : M :=
+  match t with
+  | .z => if e.ty = .z then evalZ cst K (.v i) e else assignZfromQ cst K i e
+  | .q => evalQ cst K i e
 
 end Mpir.Cxx
